@@ -30,16 +30,16 @@ CHECKS = {
         "Every HEL/OPN/MSG/CLO history of length <=4 (quick) / <=5 (thorough) plus seeded longer histories with segmentation and pauses; oracle: protocol state machine over what appears on the wire.",
         "In-memory duplex stream through the verif::net seam instead of a TCP socket; policy None.", "7/C15"),
 "C21": ("exploration", "deterministic simulation: seeded histories (writes, timer ticks, publish bursts/starvation, acks, lifecycle churn) against the real server tasks on a paused tokio runtime; reference model of pairing, ordering and exactly-once delivery",
-        "Real reader/writer/timer tasks and services; oracle: every publish response answers the oldest queued request exactly once, sequence numbers strictly increase, per-item delivered values equal the written values (no duplicate, no reorder, complete after a fault-free drain in the sound regime).",
+        "Real reader/writer/timer tasks and services; oracle: every publish response answers the oldest queued request exactly once, sequence numbers strictly increase, per-item delivered values equal the written values (no duplicate, no reorder, complete after a fault-free drain in the sound regime); publish requests with timeout hints that lapse together must be timed out oldest first.",
         "One connection, one session, policy None; completeness only claimed for items that sample every timer tick and live to the end of the drain.", "7/C21"),
 "C22": ("fault_enumeration", "deterministic simulation: enumerated keep-alive/lifetime/publishing/request-availability grid on virtual time plus seeded variations; interval-count oracle",
-        "Grid keep-alive 1..12 x lifetime {3k,3k+1,3k+5,40} x enabled/disabled x requests {always, never with probes before/after the lifetime, every 2nd/3rd interval}; oracle in whole publishing intervals with one interval of slack.",
+        "Grid keep-alive 1..12 x lifetime {3k,3k+1,3k+5,40} x enabled/disabled x requests {always, never with probes before/after the lifetime, requests until the keep-alive state then never, every 2nd/3rd interval}; oracle in whole publishing intervals with one interval of slack.",
         "Timer 100 ms on a paused tokio clock; expiry is observed by offering one publish request at the probe point.", "7/C22"),
 "C24": ("exploration", "deterministic simulation: seeded sample/resize histories through the real services and timer; bounded-queue reference model per notification",
-        "Items sampled every tick with publishing every 2-10 ticks, queue sizes 1..12, both discard policies, ModifyMonitoredItems growing/shrinking non-empty queues; oracle: size bound, order, surviving entries, overflow info bit, modify never fails.",
+        "Items sampled every tick with publishing every 2-10 ticks, queue sizes 1..12, both discard policies, ModifyMonitoredItems growing/shrinking non-empty queues; ModifyMonitoredItems with a filter the server must refuse; oracle: size bound, order, surviving entries, overflow info bit, a valid modify never fails, a refused modify changes nothing.",
         "Publish requests always available (so that C21's clauses do not interfere); one write per tick.", "7/C24"),
 "C25": ("exploration", "deterministic simulation: seeded value/status/timestamp histories set by an application actor; last-reported reference model per filter",
-        "Trigger x deadband {none, absolute, percent} x value; oracle: reported sequence equals the model's; an accepted filter must be able to report a large change.",
+        "Trigger x deadband {none, absolute, percent} x value; TimestampsToReturn {neither, source, server, both}, Server_ResendData calls, modifies with unusable filters; oracle: reported sequence equals the model's; an accepted filter (create or modify) must be able to report a large change; a refused modify leaves the old filter in force.",
         "Double variables without EURange; one direct write per tick.", "7/C25"),
 "C26": ("exploration", "deterministic simulation with clock faults: request-header timestamps (past/future/null/min/max), wall-clock jumps +-(1 ms..10 y), off-phase sleeps; no-panic and timeout-direction oracle",
         "Histories as in C21 with the clock fault kinds enabled; oracle: no panic in any server task (panic hook + connection liveness) and BadTimeout only after the timeout elapsed since the request timestamp.",
